@@ -111,12 +111,19 @@ def _more_models(ctx, first, k):
     rng = random.Random(len(ctx.pc) * 7919 + len(ctx.inputs))
     out = []
     names = list(ctx.inputs)
+    # pins make hard instances on paths with non-linear constraints (sqrt,
+    # products): short per-pin timeout and an overall budget; the solver's
+    # own model remains the fallback
+    t_end = time.time() + 10.0
     for _ in range(k):
         ctx.solver.push()
         try:
             order = names[:]
             rng.shuffle(order)
+            ctx.solver.set('timeout', 1500)
             for name in order:
+                if time.time() > t_end:
+                    break
                 c = ctx.inputs[name]
                 if z3.is_real(c):
                     val = z3.Q(rng.randint(-24, 24), 4)
